@@ -132,11 +132,22 @@ class RefInst:
         return self.engine
 
     # ------------------------------------------------------------------ providers
+    def has(self, role, name):
+        """cbid of ``name`` on provider ``role`` for THIS instance (instance-level callbacks may exist
+        on some instances of a class only), else None."""
+        c = self.rp.names.get(role, {}).get(name)
+        if c is None:
+            return None
+        only = self.rp.prog["cbs"][c].get("only_for")
+        if only and self.tag not in only:
+            return None
+        return c
+
     def providers(self, name, include_late=True):
         roles = self.roles + (self.late if include_late else [])
         out = []
         for r in roles:
-            c = self.rp.names.get(r, {}).get(name)
+            c = self.has(r, name)
             if c is not None and c not in out:
                 out.append(c)
         return out
@@ -201,14 +212,14 @@ class RefInst:
             if not bool(self._eval(expr, sv, self.roles)):
                 return False
             for late in self.late:
-                if _is_name(expr) and expr in self.rp.names.get(late, {}):
+                if _is_name(expr) and self.has(late, expr):
                     if not bool(self._eval(expr, sv, [late])):
                         return False
         for expr in t.get("unless", []):
             if bool(self._eval(expr, sv, self.roles)):
                 return False
             for late in self.late:
-                if _is_name(expr) and expr in self.rp.names.get(late, {}):
+                if _is_name(expr) and self.has(late, expr):
                     if bool(self._eval(expr, sv, [late])):
                         return False
         return True
@@ -218,7 +229,7 @@ class RefInst:
             val = True
             first = True
             for r in roles:
-                c = self.rp.names.get(r, {}).get(name)
+                c = self.has(r, name)
                 if c is None:
                     continue
                 v = self.ref.guard_value(self.rp.full(c), self.epoch, sv)
